@@ -216,9 +216,9 @@ def run_history(ctx, program, history, modes, tag, nocache_graph=False):
                 if ref_bodies != bodies:
                     ctx.count("differs_from_memo_free_reference_run_list")
                 # with caching off nothing is remembered, not even inside one evaluation: every use of a dataset runs
-                # its body, as often as the memo-free reference says (a coalesce validates its members first, which
+                # its body, as often as the memo-free reference says (instantiating a dataset class also computes its keys(); a coalesce validates its members first, which
                 # runs selectors once more and spares the sources of members that cannot be evaluated: not compared)
-                if got[0] == "ok" and exp[0] == "ok" and "coalesce" not in kinds_of(program):
+                if got[0] == "ok" and exp[0] == "ok" and not ({"coalesce", "dc"} & kinds_of(program)):
                     ctx.count("cache_off_run_lists_compared")
                     if ref_bodies != bodies:
                         ctx.violation("cache-off-does-not-recompute", f"step {step} cache mode {cm}: bodies ran {bodies}; without any memory every use recomputes: {ref_bodies}", W)
